@@ -411,8 +411,64 @@ def env_case(spec):
             "sample": {"kind": "environment", "coin": coin, "variants": [x[0] for x in variants]}}
 
 
+def suspend_case(spec):
+    """A run that is suspended for more than ten seconds while it delivers blocks (SIGSTOP ... SIGCONT): elapsed time is the only thing
+    that differs from the undisturbed run, and it reaches code no short run reaches (the progress report of the driver, due every 10 s).
+    Results must be those of the undisturbed run and of the model."""
+    coin, cbname = spec["coin"], spec["callback"]
+    rng = random.Random("C13s|%s|%s" % (spec["seed"], spec["n"]))
+    chain = gen.simple_chain(rng, coin, spec["blocks"], max_tx=3)
+    work = harness.fresh(os.path.join(spec["work"], "c%d" % spec["n"]))
+    d = os.path.join(work, "d")
+    from .. import layouts
+    kw, _desc, _ = layouts.make_layout(rng, chain, coin, assign="contiguous", nfiles=3)
+    datadir.write_datadir(d, COINS[coin], **kw)
+    binary = core.build("release")
+    v, counters = [], {"runs": 0}
+    s, e = spec.get("start"), spec.get("end")
+    dump = harness.fresh(os.path.join(work, "o"))
+    p0 = harness.run_cb(binary, d, coin, cbname, dump, s, e, vary=False)
+    counters["runs"] += 1
+    dg0 = digest_outputs(cbname, p0, dump) if p0.rc == 0 else "exit %s" % p0.rc
+    dump = harness.fresh(os.path.join(work, "o2"))
+    p1, hit = core.run_suspended(harness.cli(binary, d, coin, cbname, dump, s, e), {"RAYON_NUM_THREADS": "2", "RBP_VERIF_JITTER": str(spec["n"])},
+                                 os.path.join(work, "ev.jsonl"), pauses=spec["pauses"], every=spec["blocks"] // 4)
+    if p1.timed_out:
+        raise Inconclusive("watchdog fired (suspended run)")
+    counters["runs"] += 1
+    counters["suspended_runs"] = 1
+    counters["suspensions_that_hit_a_live_run"] = hit
+    progress = (p1.out + p1.err).count("Status:")
+    counters["progress_reports_observed"] = progress
+    if hit:
+        counters["suspended_runs_hit"] = 1
+    S = s or 0
+    sub = dump
+    if cbname == "csvdump":
+        bad = oracles.check_csvdump(p1, sub, chain, coin, S, e)
+    elif cbname == "unspentcsvdump":
+        bad = oracles.check_unspent(p1, sub, chain, coin, S, e)
+    elif cbname == "balances":
+        bad = oracles.check_balances(p1, sub, chain, coin, S, e)
+    elif cbname == "simplestats":
+        bad = oracles.check_stats(p1, chain, coin, S, e)
+    else:
+        bad = oracles.check_opreturn(p1, chain, coin, S, e)
+    what = "%s %s..%s, suspended %d x for %s s while delivering blocks, %d progress reports seen" % (cbname, s, e, hit, spec["pauses"][0], progress)
+    v.extend(viol("suspended:" + sig, "%s [%s coin=%s]" % (det, what, coin)) for sig, det in bad[:2])
+    dg1 = digest_outputs(cbname, p1, dump) if p1.rc == 0 else "exit %s" % p1.rc
+    if dg0 != dg1:
+        v.append(viol("suspended:runs-differ", "the suspended run differs from the undisturbed run of the same directory and options (%s vs %s) [%s coin=%s]" % (
+            str(dg0)[:12], str(dg1)[:12], what, coin)))
+    counters["cross_run_comparisons"] = 1
+    shutil.rmtree(work, ignore_errors=True)
+    return {"evaluations": counters["runs"], "violations": v, "counters": counters,
+            "shapes": ["suspended|%s|%s|%s" % (cbname, "ranged" if (s or e) else "full", "progress" if progress else "no-progress-line")],
+            "sample": {"kind": "suspended", "coin": coin, "callback": cbname, "pauses": list(spec["pauses"]), "hit": hit, "progress_reports": progress}}
+
+
 def dispatch(spec):
-    return {"env": env_case, "sched": sched_case, "history": history_case, "tsan": tsan_case, "nohooks": nohooks_case, "extreme": extreme_case}[spec["case"]](spec)
+    return {"env": env_case, "sched": sched_case, "history": history_case, "tsan": tsan_case, "nohooks": nohooks_case, "extreme": extreme_case, "suspend": suspend_case}[spec["case"]](spec)
 
 
 def plan(chk):
@@ -446,6 +502,11 @@ def plan(chk):
         n += 1
         specs.append(dict(case="extreme", coin=COIN_NAMES[(chk.seed + i * 3) % 8], seed=chk.seed, n=n, profiles=["release", "debug"] if i % 2 == 0 else ["release"],
                           threads=[1, 2, 3, 8, 16, 64, 8, 2] if chk.thorough else [1, 2, 8, 16, 3, 8]))
+    for i, cbname in enumerate(all_cb + (all_cb if chk.thorough else [])):
+        n += 1
+        ranged = i >= 5
+        specs.append(dict(case="suspend", coin=COIN_NAMES[(chk.seed + i) % 8], seed=chk.seed, n=n, callback=cbname, blocks=2400,
+                          start=(700 if ranged else None), end=(2100 if ranged and i % 2 else None), pauses=[10.4, 10.4] if (chk.thorough and i % 2) else [10.4]))
     if chk.thorough:
         for i in range(3):
             n += 1
@@ -470,8 +531,9 @@ def main():
     for sp in specs:
         sp["work"] = chk.workdir
     # the contention cases are themselves parallel programs: run the schedule cases a few at a time
-    sched = [s for s in specs if s["case"] != "history"]
-    hist = [s for s in specs if s["case"] == "history"]
+    sched = [s for s in specs if s["case"] not in ("history", "suspend")]
+    hist = [s for s in specs if s["case"] in ("history", "suspend")]
+    hist.sort(key=lambda s: s["case"] != "suspend")
     for res in core.parallel(dispatch, sched, jobs=4):
         chk.absorb(res)
     for res in core.parallel(dispatch, hist):
@@ -483,11 +545,11 @@ def main():
         chk.shape("no-parallel-split-observed")
         chk.shape("implementation-appears-sequential")
     chk.finish(RULE, floor={"cross_run_comparisons": 5, "rerun_comparisons": 6, "input_integrity_checks": 6,
-                            "trace_events_seen": 50, "h3_events": 10000},
+                            "trace_events_seen": 50, "h3_events": 10000, "suspended_runs_hit": 3, "progress_reports_observed": 3},
                assumptions=["the jitter hook sleeps inside a task (like a slow script), it cannot create interleavings the program cannot have",
                             "a run in which one worker evaluated every transaction of every block does not count as a distinct schedule",
                             "index integrity is judged on the key/value content (ldbtool dump of a copy), not on LevelDB's file layout, which legitimately changes on open"])
 
 
 def replay(spec):
-    core.replay_case("C13", {"env": env_case, "sched": sched_case, "history": history_case, "tsan": tsan_case, "nohooks": nohooks_case, "extreme": extreme_case}, spec)
+    core.replay_case("C13", {"env": env_case, "sched": sched_case, "history": history_case, "tsan": tsan_case, "nohooks": nohooks_case, "extreme": extreme_case, "suspend": suspend_case}, spec)
